@@ -47,9 +47,18 @@ func CheckImmutable(
 		// First pass: check simple assignments and inc/dec operations
 		// We skip compound assignments (+=, -=, etc.) here to avoid duplicates
 		ast.Inspect(file, func(n ast.Node) bool {
+			// Outside of any function body (package-level declarations, or before the
+			// first function) there is no enclosing function and no receiver.
+			if n != nil && n.Pos() >= ctx.currentFunctionEnd {
+				noFunction := ""
+				ctx.currentFunction = &noFunction
+				ctx.currentReceiver = nil
+			}
+
 			switch node := n.(type) {
 			case *ast.FuncDecl:
 				ctx.currentFunction = &node.Name.Name
+				ctx.currentFunctionEnd = node.End()
 
 				// Track receiver information for methods
 				ctx.currentReceiver = extractReceiverInfo(ctx.pass, node)
@@ -89,6 +98,8 @@ type checkerContext struct {
 	mutableFields   util.TypeAssociationRegistry
 	currentFunction *string
 	currentReceiver *receiverInfo
+	// end of the function declaration currentFunction/currentReceiver belong to
+	currentFunctionEnd token.Pos
 }
 
 // receiverInfo contains information about a method's receiver
